@@ -317,10 +317,11 @@ pub fn run_c15(cfg: &Config) -> i32 {
 	total.merge(rep);
 
 	// many duplicates of one key (beyond any small-size fast path) whose values are nested objects in permuted order
-	let rep = parallel(cfg.threads, 16, |i| {
+	let rep = parallel(cfg.threads, if cfg!(miri) { 2 } else { 16 }, |i| {
 		let mut rep = Report::new();
 		let mut rng = Rng::new(seed).fork(0xc15d + i as u64);
-		for n in [2usize, 8, 15, 16, 17, 31, 32, 33, 34, 40, 64, 65, 100, 130] {
+		let sizes: &[usize] = if cfg!(miri) { &[2, 17, 33] } else { &[2, 8, 15, 16, 17, 31, 32, 33, 34, 40, 64, 65, 100, 130] };
+		for &n in sizes {
 			let nested = |rng: &mut Rng, flip: bool| -> Vec<RVal> {
 				let mut v = Vec::new();
 				for t in 0..3 {
@@ -370,10 +371,11 @@ pub fn run_c15(cfg: &Config) -> i32 {
 	total.merge(rep);
 
 	// wide objects (beyond any inline buffer) in which one side repeats a key and the other does not
-	let rep = parallel(cfg.threads, 16, |i| {
+	let rep = parallel(cfg.threads, if cfg!(miri) { 2 } else { 16 }, |i| {
 		let mut rep = Report::new();
 		let mut rng = Rng::new(seed).fork(0xc15f + i as u64);
-		for n in [5usize, 16, 17, 31, 32, 33, 34, 40, 64, 65, 100, 257] {
+		let sizes: &[usize] = if cfg!(miri) { &[5, 17, 33] } else { &[5, 16, 17, 31, 32, 33, 34, 40, 64, 65, 100, 257] };
+		for &n in sizes {
 			let base: Vec<(String, RVal)> = (0..n).map(|j| (format!("k{}", j), RVal::Num((j % 7).to_string()))).collect();
 			// b: the last entry replaced by a second copy of an earlier one (same value): same length, different multiset
 			let mut dup = base.clone();
@@ -818,7 +820,7 @@ pub fn run_c14(cfg: &Config) -> i32 {
 	{
 		let rep = parallel(cfg.threads, 16, |i| {
 			let mut rep = Report::new();
-			let sizes: Vec<usize> = if cfg.san { vec![3, 33, 65] } else { (1..=130usize).filter(|n| n % 16 == i).collect() };
+			let sizes: Vec<usize> = if cfg.san { if i == 0 { vec![3, 33, 65] } else { vec![] } } else { (1..=130usize).filter(|n| n % 16 == i).collect() };
 			for n in sizes {
 				let base_o: Vec<(String, RVal)> = (0..n).map(|j| (format!("k{}", j % 97), RVal::Num((j % 10).to_string()))).collect();
 				let base_a: Vec<RVal> = (0..n).map(|j| RVal::Str(format!("s{}", j % 7))).collect();
@@ -916,12 +918,14 @@ pub fn run_c14(cfg: &Config) -> i32 {
 					}
 				}
 			};
-			let mut k = i;
+			// all ordered pairs; a sample of about 2 per shard in the sanitizer passes
+			let stride = if cfg.san { (nf * nf / 2).max(1) * shards / shards.max(1) + 7 } else { shards };
+			let mut k = if cfg.san { (i * 7919 + seed as usize % 1009) % (nf * nf) } else { i };
 			while k < nf * nf {
 				let (a, b) = (k / nf, k % nf);
 				one(&mut rep, &fam[a], &fam[b], k % 5 == 0);
 				rep.distinct_by_construction(1);
-				k += shards;
+				k += stride;
 			}
 			for _ in 0..(random_pairs / shards as u64).max(1) {
 				let p = ValueParams {
